@@ -80,6 +80,12 @@ Theorem shared_error_values_are_only_read : handler_never_writes_error_meta = tr
 Proof. exact Plumbing.error_metadata_is_read_only_for_the_library. Qed.
 Print Assumptions shared_error_values_are_only_read.
 
+(* ... and the one error value the library itself would otherwise share between calls - the
+   error a client's construction failed with - is copied for every call *)
+Theorem construction_error_is_copied_per_call : client_construction_error_is_private = true.
+Proof. exact Plumbing.construction_error_is_private. Qed.
+Print Assumptions construction_error_is_copied_per_call.
+
 (* the response's header and trailer maps reach user code only after the request
    goroutine has finished writing them (the accessors wait for responseReady) *)
 Theorem response_maps_handed_over_after_they_are_written : client_accessors_wait_for_response = true.
